@@ -144,6 +144,15 @@ def norm_line(l):
     # The flag of SS (could the request be written to the stream) is not modelled.
     if l.startswith("SS"):
         return "SS"
+    # A Pull blocked on a subscription that gets deleted ends with NOT_FOUND or
+    # FAILED_PRECONDITION, whichever select! branch the runtime polls first.
+    if l.startswith("JOIN "):
+        t = l.split(" ")
+        # calls that race with another request (ids >= 900): only completion is compared
+        if t[1].isdigit() and int(t[1]) >= 900 and t[2:] != ["-"]:
+            return "JOIN %s <completed>" % t[1]
+        if t[2:] in (["PULL", "5"], ["PULL", "9"]):
+            return "JOIN %s PULL <error>" % t[1]
     return l
 
 
@@ -157,12 +166,22 @@ def write_cases(path, cases):
             f.write("END\n")
 
 
+def norm_for(op, l):
+    """Streams with id >= 900 take part in a race (calls started without letting the runtime settle): which
+    batches they receive depends on the schedule, so only whether and how they ended is compared."""
+    t = op.split(" ")
+    if t[0] == "SR" and t[1].isdigit() and int(t[1]) >= 900 and l.startswith("SR "):
+        return "SR <...> " + l.split(" ")[-1]
+    return norm_line(l)
+
+
 def diff_case(ops, impl, model, relevant=None):
     """First index where the two sides disagree on a relevant line, or None."""
     n = max(len(impl), len(model))
     for i in range(n):
-        a = norm_line(impl[i]) if i < len(impl) else "<missing>"
-        b = norm_line(model[i]) if i < len(model) else "<missing>"
+        op_i = ops[i] if i < len(ops) else "?"
+        a = norm_for(op_i, impl[i]) if i < len(impl) else "<missing>"
+        b = norm_for(op_i, model[i]) if i < len(model) else "<missing>"
         if a != b:
             op = ops[i].split(" ")[0] if i < len(ops) else "?"
             if relevant is None or op in relevant or a.startswith("!") or b == "?":
